@@ -29,8 +29,8 @@ H2560 == INSTANCE CfbHandle WITH MinBuf <- 1024, Growth <- 4, MaxBuf <- 2560, Fi
 H4096 == INSTANCE CfbHandle WITH MinBuf <- 1024, Growth <- 4, MaxBuf <- 4096, FixDirty <- TRUE, FixRefill <- TRUE
 HDef  == INSTANCE CfbHandle WITH MinBuf <- 1024, Growth <- 4, MaxBuf <- 1048576, FixDirty <- TRUE, FixRefill <- TRUE
 
-VARIABLES h, files, mb, l, skip
-vars == <<h, files, mb, l, skip>>
+VARIABLES h, files, mb, l, skip, fver
+vars == <<h, files, mb, l, skip, fver>>
 
 Has(e, f) == f \in DOMAIN e
 NoH == [open |-> FALSE]
@@ -95,10 +95,22 @@ After(x, e) ==
     [] e.op = "flush"       -> XFlush(x).h
     [] OTHER -> x
 
+(* One refill of a clean window is chain.seek + chain.read_exact (CfbChainIO): one backend read per piece of the window  *)
+(* that lies in one (mini) sector - the backends of these runs return full counts.  The number of backend reads of a call  *)
+(* that refills is therefore the number of sector pieces of the new window (64-byte pieces below the cutoff).              *)
+Pieces(a, len, u) == IF len = 0 THEN 0 ELSE ((a + len - 1) \div u) - (a \div u) + 1
+Refills(x) == ~(x.pos < x.cap) /\ x.boff + x.pos < x.total
+UnitOf(x) == IF RLen(x.file) < 4096 THEN 64 ELSE IF fver = 3 THEN 512 ELSE 4096
+ReadsOK(x, x2, e) ==
+  (e.op \in {"fill_buf", "read"} /\ ~x.dirty /\ Refills(x) /\ Has(e, "ncalls") /\ l > 1 /\ Has(Rec[l - 1], "ncalls") /\ Rec[l - 1].hi = e.hi
+     /\ Rec[l - 1].ev # "reset")
+  => /\ TLCSet(48, TLCGet(48) + 1)
+     /\ e.ncalls[1] - Rec[l - 1].ncalls[1] = Pieces(x2.boff, x2.cap, UnitOf(x))
+
 View6(x) == <<x.boff, x.pos, x.cap, x.dlen, x.dirty, x.total>>
 Names == <<"window-offset", "cursor", "filled", "allocated", "dirty", "length">>
 
-Init == h = NoH /\ files = <<>> /\ mb = -1 /\ l = 1 /\ skip = TRUE /\ TLCSet(42, 0)
+Init == h = NoH /\ files = <<>> /\ mb = -1 /\ l = 1 /\ skip = TRUE /\ fver = 4 /\ TLCSet(42, 0) /\ TLCSet(48, 0)
 
 Step ==
   /\ l <= Len(Rec)
@@ -107,35 +119,37 @@ Step ==
      THEN LET follow == e.res.k = "ok" /\ e.mode = "plain" /\ Has(e, "faulty") /\ ~e.faulty /\ Has(e, "maxbuf") /\ Known(e.maxbuf)
                         /\ ~Has(e, "nofid")      \* (histories whose transfers go through derived io methods: primitive calls only here)
           IN /\ skip' = ~follow /\ h' = NoH /\ mb' = (IF Has(e, "maxbuf") THEN e.maxbuf ELSE -1)
+             /\ fver' = (IF Has(e, "ver") THEN e.ver ELSE 4)
              /\ files' = IF follow THEN InitFiles(e.streams) ELSE <<>>
-     ELSE IF skip THEN UNCHANGED <<h, files, mb, skip>>
+     ELSE IF skip THEN UNCHANGED <<h, files, mb, skip, fver>>
      ELSE IF e.op \in {"park", "unpark", "drop_cf", "create_stream", "remove_stream", "cf_flush"} \/ e.res.k = "panic"
-     THEN skip' = TRUE /\ UNCHANGED <<h, files, mb>>
+     THEN skip' = TRUE /\ UNCHANGED <<h, files, mb, fver>>
      ELSE IF e.op = "open"
-     THEN h' = NoH /\ UNCHANGED <<files, mb, skip>>
+     THEN h' = NoH /\ UNCHANGED <<files, mb, skip, fver>>
      ELSE IF e.op = "open_stream"
      THEN (IF e.res.k = "ok" /\ e.name \in DOMAIN files
-           THEN h' = [open |-> TRUE, name |-> e.name, c |-> XNew(files[e.name])] /\ UNCHANGED <<files, mb, skip>>
-           ELSE UNCHANGED <<h, files, mb, skip>>)
+           THEN h' = [open |-> TRUE, name |-> e.name, c |-> XNew(files[e.name])] /\ UNCHANGED <<files, mb, skip, fver>>
+           ELSE UNCHANGED <<h, files, mb, skip, fver>>)
      ELSE IF e.op = "close"
      THEN \* dropping a handle writes its data back
           /\ files' = IF h.open THEN (h.name :> XFlush(h.c).h.file) @@ files ELSE files
-          /\ h' = NoH /\ UNCHANGED <<mb, skip>>
+          /\ h' = NoH /\ UNCHANGED <<mb, skip, fver>>
      ELSE IF ~h.open \/ e.res.k # "ok" \/ ~Has(e, "hs")
-     THEN UNCHANGED <<h, files, mb, skip>>        \* refused calls change nothing (judged by Trace_Handle)
+     THEN UNCHANGED <<h, files, mb, skip, fver>>        \* refused calls change nothing (judged by Trace_Handle)
      ELSE LET x2 == After(h.c, e)
               got == <<e.hs[1], e.hs[2], e.hs[3], e.hs[4], e.hs[5], e.hs[6]>>
               bad == {i \in 1..6 : View6(x2)[i] # got[i]}
           IN /\ TLCSet(42, TLCGet(42) + 1)
              /\ (\A i \in bad : PrintT(<<"HDRIFT", Names[i], e.op, e.hi, e.oi, l>>))
              /\ (bad # {} => PrintT(<<"HEXPECTED", View6(x2), "GOT", got>>))
+             /\ (IF bad = {} /\ ~ReadsOK(h.c, x2, e) THEN PrintT(<<"HDRIFT", "backend-reads", e.op, e.hi, e.oi, l>>) ELSE TRUE)
              /\ h' = [h EXCEPT !.c = x2]
              /\ files' = IF e.op = "flush" THEN (h.name :> x2.file) @@ files ELSE files
-             /\ skip' = (bad # {}) /\ UNCHANGED mb
+             /\ skip' = (bad # {}) /\ UNCHANGED <<mb, fver>>
   /\ l' = l + 1
 Next == Step
 Spec == Init /\ [][Next]_vars
 Consumed == IF TLCGet("stats").diameter = Len(Rec) + 1
-            THEN PrintT(<<"HCOMPARED", TLCGet(42)>>)
+            THEN PrintT(<<"HCOMPARED", TLCGet(42)>>) /\ PrintT(<<"HREFILLS", TLCGet(48)>>)
             ELSE PrintT(<<"STUCK", TLCGet("stats").diameter, Len(Rec)>>) /\ FALSE
 =============================================================================
